@@ -156,6 +156,7 @@ func (in *Interp) takeSnapshot(h *ssa.Function) {
 
 func (in *Interp) restoreSnapshot() {
 	in.globals = cloneGlobals(in.snap.globals)
+	in.rwCond = nil
 	in.nextObj = in.snap.nextObj
 	in.nextMap = in.snap.nextMap
 	in.steps = in.snap.steps
